@@ -106,6 +106,30 @@ func SiblingRSAKey(k *rsa.PrivateKey, pos int, spki func(*rsa.PublicKey) []byte)
 	panic("no sibling key found")
 }
 
+var (
+	longOnce sync.Once
+	longKey  *rsa.PrivateKey
+)
+
+// LongRSAKey returns a fixed 3072-bit key: longer than token types 2 and 3 allow (their
+// authenticator field has 256 bytes).
+func LongRSAKey() *rsa.PrivateKey {
+	longOnce.Do(func() {
+		b, err := keyFS.ReadFile("testdata/rsa7.pem")
+		if err != nil {
+			panic(err)
+		}
+		blk, _ := pem.Decode(b)
+		k, err := x509.ParsePKCS1PrivateKey(blk.Bytes)
+		if err != nil {
+			panic(err)
+		}
+		k.Precompute()
+		longKey = k
+	})
+	return longKey
+}
+
 // FreshRSA returns a private copy of fixed key i (safe to hand to code under test
 // that might mutate it).
 func FreshRSA(i int) *rsa.PrivateKey {
